@@ -97,7 +97,13 @@ Lemma if_single_statement_bodies c x y gx gy :
   tr_stmt x = Some gx -> tr_stmt y = Some gy ->
   tr_stmt (GN L_IF [c; GN L_SINGLE [x]; GN L_SINGLE [y]]) =
   Some (GN O_IF [c; GN O_BLOCK [gx]; some (GN O_BLOCK [gy])]).
-Proof. intros Hx Hy. cbn. cbn in Hx, Hy. rewrite Hx, Hy. reflexivity. Qed.
+Proof.
+  intros Hx Hy.
+  assert (is_empty_single (GN L_SINGLE [y]) = false) as He.
+  { destruct y as [l2 k2]. cbn [is_empty_single]. destruct (N.eqb_spec l2 L_EMPTY) as [->|Hne]; [|reflexivity].
+    cbn in Hy. discriminate. }
+  cbn. cbn in Hx, Hy, He. rewrite Hx, Hy, ?He. reflexivity.
+Qed.
 Lemma while_roles c b : tr_stmt (GN L_WHILE [c; GN L_BLOCK b]) = Some (GN O_WHILE [c; GN O_BLOCK (tr_list b)]).
 Proof. reflexivity. Qed.
 Lemma for_roles v it b : tr_stmt (GN L_FOR [v; it; GN L_BLOCK b]) = Some (GN O_FOR [v; it; GN O_BLOCK (tr_list b)]).
